@@ -11,6 +11,9 @@ Line-protocol driver for C13.
   N s0 op…           (op = S n | B) -> node counts of the objects built by the construction history (`builtCounts`)
   B m v              (bits) -> Bernoulli link
   A f s              (bits) -> Beta concentrations alpha beta
+  R k z logphi       (k nat; bits) -> gradient (per unit grad_output) returned by the k-th backward pass through one graph (k = 0 first)
+  Q n t1 w1 … tn wn  (rationals) -> per k < 2n  `bound scale`: certified bound of the k-th moment-equation residual, and its scale
+  P                  -> generated purity facts: ghqForwardStateWrites | likelihoodCallStateWrites… | bernoulliLabelGuardIsCurrentInput | forward/backward leave their inputs and saved state alone (checked at a probe point)
 -/
 open Quadrature Gen.Quadrature
 
@@ -62,6 +65,26 @@ def step (line : String) : String :=
           | _ => none
         let ops ← parse ops
         some (" ".intercalate ((builtCounts s0 ops).map toString))
+    | ["R", k, z, lp] => do
+        let k ← k.toNat?
+        let z ← fOf z
+        some (fShow (lncdfBackwardNth k z (← fOf lp) (lncdfSmallNum z) (lncdfSmallDen z)))
+    | "Q" :: n :: rest => do
+        let n ← n.toNat?
+        let xs ← Proto.parseRats? rest
+        if xs.length != 2 * n then none else
+        let rec prs : List Rat → List (Rat × Rat)
+          | a :: b :: r => (a, b) :: prs r
+          | _ => []
+        let rule := prs xs
+        some (" ".intercalate ((List.range (2 * n)).map fun k =>
+          s!"{Proto.showRat (momentResidualBound rule k)} {Proto.showRat (momentAbsScale rule k)}"))
+    | ["P"] =>
+        let z : Float := -2.5
+        let st := lncdfBackwardStateAfter z (-5.25) (3.5 : Float) (7.75) (1.25)
+        let pureB := st.1 == z && st.2.1 == -5.25 && st.2.2.1 == 3.5 && st.2.2.2.1 == 7.75 && st.2.2.2.2 == 1.25
+        let pureF := lncdfForwardInputAfter z == z
+        some s!"{ghqForwardStateWrites} | {" ".intercalate (likelihoodCallStateWrites.map toString)} | {bernoulliLabelGuardIsCurrentInput} | {pureF} {pureB}"
     | ["B", m, v] => do
         some (fShow (bernoulliLink (← fOf m) (← fOf v)))
     | ["A", f, s] => do
